@@ -4,7 +4,8 @@ For every source text T (written to a scratch file and given to
 `io.check_or_generate_pyi` exactly like the command line does):
 
   (1) no exception escapes (utils.UsageError caused by the environment is
-      counted, not judged; the per-file SIGALRM watchdog firing is inconclusive
+      counted, not judged; the per-file watchdog - 60 s / 300 s of CPU time via
+      ITIMER_PROF, backed by a wall-clock SIGALRM at 8x - firing is inconclusive
       for that file, never a violation);
   (2) if CPython's own `compile(T, name, 'exec')` raises SyntaxError/ValueError:
       exactly one error, named python-compiler-error, at CPython's lineno;
@@ -39,6 +40,30 @@ PID = "C15"
 STDLIB = "/root/.pyenv/versions/3.12.1/lib/python3.12"
 SCRATCH = os.path.join(boot.BUILD, "scratch")
 NUL_KEY = "compile error without line (e.g. NUL byte) reported at line 0"
+
+
+# minimal reproducers of the findings listed in notes/C15.md (kept in the workload so that a
+# repaired mechanism shows up as a vanished KNOWN-FINDING line)
+KNOWN_REPRODUCERS = [
+    "x = {**[]}\n",                                   # AttributeError constant_folding.visit_code
+    "x = [*{}]\n",                                    # TypeError constant_folding.visit_code
+    "x = {a: 1, **b, []: 2}\n",                       # TypeError constant_folding.add
+    "x = hasattr(*y)\n",                              # IndexError special_builtins.run
+    "x = next(**p)\n",                                # IndexError special_builtins._get_args
+    "x = abs(*y)\n",                                  # IndexError special_builtins.call
+    "def f[T](x=None): pass\n",                       # ConversionError convert.value_to_constant
+    "class A:\n    class B[T]:\n        pass\n",      # AssertionError vm.byte_LOAD_FROM_DICT_OR_DEREF
+    "G1: [] = []\ndef f():\n    match G1:\n        case list(): pass\n",   # KeyError blocks.get_cell_index
+    "import enum\nclass C(enum.Enum):\n    x = [i for i in ()]\n",         # ConversionError get_atomic_value
+    "import enum\nclass C1(enum.Enum):\n    A = 1\n    B = ()\nclass C2(C1):\n    pass\n",  # TypeError enum_overlay
+    "x = [*42]\n", "x = {**42}\n", "x = {[]}\n",        # ConstantError reported as compiler error
+    "from collections.abc import Mapping\n",          # AttributeError typing_overlay.__init__ (empty typeshed only)
+    "x = list[int]\nx.y = 1\n",                        # NotImplementedError attribute.set_attribute
+    "from typing import Generic, TypeVar\nT = TypeVar('T')\nclass Bad(Generic[T, T]): pass\n",  # ContainerError
+    "from typing import List, TypedDict\nclass TD(TypedDict):\n    v: List['TD']\nx: TD = {}\n",  # RecursionError
+    # FlawedQuery in convert_structural.match_call_record (needs --protocols)
+    ("from typing import List\nG0 = 0\nG1: List[int]\ndef helper():\n    open(G1 and G0)\n", {"protocols": True}),
+]
 
 
 class _Timeout(BaseException):
@@ -97,7 +122,17 @@ def crash_key(e: BaseException):
   if not frames:
     return f"internal crash: {tname} (no pytype frame)"
   if isinstance(e, RecursionError):
-    c = collections.Counter(lab(f) for f in frames[-120:])
+    # name the recursion cycle, independent of where in the cycle the limit was hit: find the
+    # period of the frame sequence (ignoring up to 40 innermost frames) and take the
+    # alphabetically first function of the cycle
+    labels = [lab(f) for f in frames]
+    for k in range(0, 40):
+      tail = labels[:len(labels) - k]
+      for per in range(1, 200):
+        if len(tail) >= 3 * per and tail[-per:] == tail[-2 * per:-per] == tail[-3 * per:-2 * per]:
+          cyc = sorted(set(tail[-per:]))
+          return f"internal crash: RecursionError, cycle of {len(cyc)} function(s) incl. {cyc[0]}"
+    c = collections.Counter(labels[-120:])
     return f"internal crash: RecursionError cycling through {c.most_common(1)[0][0]}"
   return f"internal crash: {tname} in {lab(frames[-1])}"
 
@@ -112,6 +147,13 @@ def classify_false_compile_error(text, msg):
               "appends ' = ...' to a line where that is not valid syntax")
   except Exception:  # pylint: disable=broad-except
     pass
+  m = str(msg)
+  if m.startswith("Value after *"):
+    return ("compilable source rejected as python-compiler-error: constant_folding.ConstantError "
+            "'Value after * / ** must be an iterable / a mapping' (literal unpacked in a display; fails only at run time)")
+  if m.startswith("TypeError: "):
+    return ("compilable source rejected as python-compiler-error: constant_folding.ConstantError "
+            "'TypeError: unhashable type' (unhashable literal as set element / dict key; fails only at run time)")
   return "compilable source rejected as python-compiler-error: " + norm_msg(msg)
 
 
@@ -224,37 +266,53 @@ def analyze_text(text, workdir, name, opts, watchdog):
     f.write(text)
   with open(path, encoding="utf8") as f:      # exactly how pytype reads it
     text_rb = f.read()
-  cp = cpython_compile(text_rb, path)
+  opts = dict(opts)
+  if "python_version" in opts:
+    opts["python_version"] = tuple(opts["python_version"])
+  if opts.get("python_version", (3, 12)) != tuple(sys.version_info[:2]):
+    cp = ("unknown", "other bytecode version: host compiler is no oracle")
+  else:
+    cp = cpython_compile(text_rb, path)
   outcome = {}
   d0 = _dispatches[0]
   t0 = time.time()
+  # watchdog: `watchdog` seconds of CPU time of this process (robust against a loaded machine),
+  # backed by a wall-clock alarm at 8x for analyses that block without using CPU
   old = signal.signal(signal.SIGALRM, _on_alarm)
-  signal.alarm(int(watchdog))
+  old_prof = signal.signal(signal.SIGPROF, _on_alarm)
+  signal.setitimer(signal.ITIMER_PROF, float(watchdog))
+  signal.alarm(int(watchdog) * 8)
   try:
     try:
       res = pt.analyze_file(path, **opts)
       signal.alarm(0)
+      signal.setitimer(signal.ITIMER_PROF, 0)
       outcome = {"kind": "result", "errors": [[n, l, str(m)[:300]] for n, l, m in res.errors],
                  "pyi": res.pyi}
     except _Timeout:
       outcome = {"kind": "timeout"}
     except utils.UsageError as e:
       signal.alarm(0)
+      signal.setitimer(signal.ITIMER_PROF, 0)
       outcome = {"kind": "usage-error", "message": str(e)[:300]}
     except MemoryError:
       signal.alarm(0)
+      signal.setitimer(signal.ITIMER_PROF, 0)
       outcome = {"kind": "resource", "message": "MemoryError under the address-space limit"}
     except KeyboardInterrupt:
       raise
     except BaseException as e:  # pylint: disable=broad-except
       signal.alarm(0)
+      signal.setitimer(signal.ITIMER_PROF, 0)
       outcome = {"kind": "crash", "key": crash_key(e), "exc": f"{type(e).__name__}: {str(e)[:300]}",
                  "tb": "".join(traceback.format_tb(e.__traceback__)[-6:])[-2500:]}
   except _Timeout:
     outcome = {"kind": "timeout"}
   finally:
     signal.alarm(0)
+    signal.setitimer(signal.ITIMER_PROF, 0)
     signal.signal(signal.SIGALRM, old)
+    signal.signal(signal.SIGPROF, old_prof)
     try:
       os.unlink(path)
     except OSError:
@@ -288,7 +346,7 @@ def run_item(item, workdir, watchdog, k):
       "nerr": len(out.get("errors") or []),
       "err_names": sorted({e[0] for e in out.get("errors") or []}),
   })
-  rec["nontrivial"] = bool(judged and ((cp[0] == "ok" and out["dispatches"] >= 30) or
+  rec["nontrivial"] = bool(judged and ((cp[0] in ("ok", "unknown") and out["dispatches"] >= 30) or
                                        (cp[0] == "error" and n >= 3)))
   if cp[0] == "error":
     rec["cp_line_none"] = cp[1] is None
@@ -371,8 +429,8 @@ def build_items(tier, seed):
     n_gen, n_mut_gen, n_mut_corpus, n_corpus = 200, 110, 90, 60
     corpus_cap, mut_cap = 9000, 6000
   else:
-    n_gen, n_mut_gen, n_mut_corpus, n_corpus = 2000, 1100, 900, None
-    corpus_cap, mut_cap = 40000, 12000
+    n_gen, n_mut_gen, n_mut_corpus, n_corpus = 2000, 1000, 1000, None
+    corpus_cap, mut_cap = 120000, 12000
 
   def opts():
     o = {}
@@ -393,37 +451,64 @@ def build_items(tier, seed):
   for i in range(n_mut_corpus):
     p = rng.choice(small)
     items.append({"id": f"cm{i}-{os.path.basename(p)}", "kind": "corpus-mutant", "path": p, "mseed": i,
-                  "opts": {"quick": True} if tier == "quick" else opts()})
+                  "opts": opts()})
   chosen = [p for p, _ in files]
   if n_corpus is not None:
     chosen = rng.sample(chosen, min(n_corpus, len(chosen)))
   for p in chosen:
     items.append({"id": "c-" + os.path.relpath(p, STDLIB), "kind": "corpus", "path": p,
-                  "opts": {"quick": True} if tier == "quick" else {}})
+                  "opts": {}})
   # fixed regression seeds of the property's corner cases
   for i, t in enumerate(["x = 1\ny = '\0'\n", "", "\n\n", "x = (\n", "def f(:\n", "def f():\n",
                          "if 1:\n\tx = 1\n        y = 2\n", "return\n", "x = 1\r\ny = )\r\n",
                          "def f():\n    x: int; y = 1\n    return y\n", "\x0c\nx = )\n",
-                         "class A:\n  def f(self):\n    nonlocal q\n", "x = '''\n", "f'{'\n", "1 +\n"]):
-    items.append({"id": f"fixed{i}", "kind": "text", "text": t, "opts": {}})
+                         "class A:\n  def f(self):\n    nonlocal q\n", "x = '''\n", "f'{'\n", "1 +\n"]
+                        + KNOWN_REPRODUCERS):
+    o = {}
+    if isinstance(t, tuple):
+      t, o = t
+    items.append({"id": f"fixed{i}", "kind": "text", "text": t, "opts": dict(o)})
+  skipped = []
+  if tier == "thorough":
+    # other bytecode versions through pytype's own python_exe path: only clauses (1) and (3) are
+    # judged there (the CPython oracle of clause (2) is the host compiler)
+    for ver in ((3, 10), (3, 11)):
+      if other_python_bin(ver) is None:
+        skipped.append(f"-V {ver[0]}.{ver[1]}: interpreter not found")
+        continue
+      for s in seeds[:100]:
+        items.append({"id": f"h{s}-v{ver[1]}", "kind": "hostile", "seed": s,
+                      "opts": {"python_version": list(ver)}})
+  else:
+    skipped.append("-V 3.10 / 3.11 slice: thorough tier only")
   rng.shuffle(items)
-  return items
+  return items, skipped
+
+
+def other_python_bin(ver):
+  import glob
+  tag = f"{ver[0]}.{ver[1]}"
+  c = sorted(glob.glob(f"/root/.pyenv/versions/{tag}.*/bin/python{tag}"))
+  return os.path.dirname(c[-1]) if c else None
 
 
 def make_tasks(items, tier, run_id, round_no=0, asan_fraction=0.05):
   rng = random.Random(f"C15-tasks-{run_id}-{round_no}")
   watchdog = 60 if tier == "quick" else 300
   n_asan = max(2, int(len(items) * asan_fraction)) if round_no == 0 else 0
-  asan_items = [it for it in items if it["kind"] in ("hostile", "hostile-mutant", "text")][:n_asan]
+  asan_items = [it for it in items if it["kind"] in ("hostile", "hostile-mutant", "text")
+                and "python_version" not in (it.get("opts") or {})][:n_asan]
   asan_ids = {it["id"] for it in asan_items}
   plain_items = [it for it in items if it["id"] not in asan_ids]
   tasks = []
+  bins = [b for b in (other_python_bin(v) for v in ((3, 10), (3, 11))) if b]
+  path_env = os.pathsep.join(bins + [os.environ.get("PATH", "")])
 
   def add(batch, variant, idx):
     tid = f"r{round_no}/{variant}/{idx}"
     part = os.path.join(SCRATCH, f"c15-part-{run_id}-r{round_no}-{variant}-{idx}.jsonl")
-    tasks.append({"fn": "vf.checks.c15:child", "id": tid, "variant": variant,
-                  "timeout": max(600, len(batch) * (watchdog + 5)) if tier == "quick" else max(1800, len(batch) * 120),
+    tasks.append({"fn": "vf.checks.c15:child", "id": tid, "variant": variant, "env": {"PATH": path_env},
+                  "timeout": 3600 if tier == "quick" else 3 * 3600,
                   "arg": {"items": batch, "watchdog": watchdog, "partial": part},
                   "_partial": part, "_items": batch})
   nb = 30 if tier == "quick" else 96
@@ -469,7 +554,7 @@ def run(tier, seed):
             "opcodes, or non-compilable text of >= 3 lines; distinct by sha1 of the text. Sources: hostile "
             "generator, token/line mutants of generated programs and of stdlib files, stdlib corpus slice."))
   run_id = f"{os.getpid()}-{seed}"
-  items = build_items(tier, seed)
+  items, skipped_slices = build_items(tier, seed)
   by_id = {it["id"]: it for it in items}
   boot.build_ext("asan")
   records = []
@@ -537,6 +622,7 @@ def run(tier, seed):
 
   # ---- aggregate
   err_classes = collections.Counter()
+  not_judged_items = []
   usage = collections.Counter()
   tmax = 0.0
   for rec in records:
@@ -548,6 +634,8 @@ def run(tier, seed):
       ck.case(rec["fp"], rec.get("nontrivial", False))
     else:
       ck.count("files_not_judged: " + str(oc))
+      not_judged_items.append({"id": rec["id"], "kind": rec["kind"], "label": rec.get("label"),
+                               "why": oc, "t": rec.get("t")})
     for n in rec.get("err_names") or []:
       err_classes[n] += 1
     if rec.get("cp") == "error":
@@ -577,7 +665,9 @@ def run(tier, seed):
   ck.extra["usage_errors_from_environment"] = dict(usage)
   ck.extra["sources_by_build"] = dict(by_variant)
   ck.extra["slowest_file_s"] = tmax
+  ck.extra["skipped_slices"] = skipped_slices
   ck.extra["workers_died"] = died[:10]
+  ck.extra["not_judged_items"] = not_judged_items[:20]
   # C16 in-situ monitor: extra information only (never a C15 violation)
   ck.extra["c16_monitor"] = {k: v for k, v in mon.items()}
   ck.extra["c16_monitor_violation_samples"] = mon_samples[:3]
@@ -589,7 +679,7 @@ def run(tier, seed):
       "CPython 3.12's compile() in the same interpreter defines 'cannot compile' and the blamed line",
       "the source text is what open(path, encoding='utf8') returns (universal newlines), as pytype reads it",
       "empty typeshed: non-bundled imports are [import-error] + Any (a legitimate stub + error report)",
-      "a per-file watchdog (60 s quick / 300 s thorough) firing is not judged; non-termination is not decidable here"]
+      "a per-file watchdog (60 s quick / 300 s thorough of CPU time, wall-clock alarm at 8x) firing is not judged; non-termination is not decidable here"]
   judged = sum(1 for r in records if r.get("judged"))
   notj = sum(1 for r in records if r.get("outcome") in ("timeout", "resource"))
   if judged == 0:
